@@ -80,7 +80,7 @@ def neighbor_block(n: dict) -> str:
     if static:
         out.append('    static {')
         for r in static:
-            out.append(f'        {r};')
+            out.append(f'        {r}' + ('' if r.rstrip().endswith('}') else ';'))  # a nested `route <prefix> { ... }` block takes no semicolon
         out.append('    }')
     for line in n.get('extra', []):
         out.append('    ' + line)
